@@ -302,7 +302,9 @@ func (m *model) frameProps(key string) []string {
 func (m *model) valueProps() []string {
 	switch m.c.Func {
 	case FnESDTTransfer, FnESDTNFTTransfer, FnMultiTransfer:
-		return P("C01")
+		// the transfer parser's report is checked to equal the expectation, so a ledger that moved
+		// something else also contradicts C10 ("never told it received more or other tokens than the ledger moved")
+		return P("C01", "C10")
 	case FnFreeze, FnUnFreeze:
 		return P("C04", "C02")
 	}
